@@ -72,6 +72,7 @@ type task struct {
 	done     chan struct{}
 	atOp     string
 	poisoned bool
+	deferred bool // straggler: resumed only when nothing else can run and HoldExternals externals have run
 	res      controller.Result
 	err      error
 	panicked any
@@ -97,6 +98,9 @@ type watcherRun struct {
 type External struct {
 	Name string
 	Fn   func() error
+	// WhenIdle: even under a drawn schedule the action is performed only when the controllers have nothing to do
+	// (the client, or the fault, comes after everything earlier has settled).
+	WhenIdle bool
 }
 
 // StepInfo describes one executed reconcile (or segment) for monitors.
@@ -119,6 +123,9 @@ type Sched struct {
 	// DeferReplayed >= 0: the n-th work item replayed after a crash is a straggler: it is taken up only when
 	// nothing else can run (its partition's worker was slow to start or sits in a retry back-off).
 	DeferReplayed int
+	// HoldExternals: a deferred in-flight task (DeferInflight) stays parked until this many more external
+	// actions have been performed and nothing else can run.
+	HoldExternals int
 	ctls          []*ctl
 	watchers      []*watcherRun
 	seq           int
@@ -494,14 +501,46 @@ func (s *Sched) candidates() []cand {
 			normal = append(normal, c)
 		}
 	}
-	if len(tasks)+len(normal) == 0 {
+	var running, parked []cand
+	for _, c := range tasks {
+		if c.t.deferred {
+			parked = append(parked, c)
+		} else {
+			running = append(running, c)
+		}
+	}
+	if len(running)+len(normal) == 0 && (s.HoldExternals <= 0 || len(s.Externals) == 0) {
+		for _, c := range parked {
+			c.t.deferred = false
+		}
+		running, parked = parked, nil
+	}
+	if len(running)+len(parked)+len(normal) == 0 {
 		for _, c := range late {
 			c.it.deferred = false
 		}
 		normal = late
 	}
-	out := append(tasks, normal...)
+	out := append(running, normal...)
 	return out
+}
+
+// DeferInflight parks the in-flight task of the named controller (pre-emptive mode): it is resumed only when
+// nothing else can run and hold more external actions have been performed. Returns false if there is none.
+func (s *Sched) DeferInflight(ctlName string, hold int) bool {
+	for _, c := range s.ctls {
+		if c.name != ctlName {
+			continue
+		}
+		for _, sl := range c.slots {
+			if sl.inflight != nil {
+				sl.inflight.deferred = true
+				s.HoldExternals = hold
+				return true
+			}
+		}
+	}
+	return false
 }
 
 func (s *Sched) ctlIndex(c *ctl) int {
@@ -556,7 +595,7 @@ func (s *Sched) Run() error {
 				return err
 			}
 		}
-		if len(s.Externals) > 0 && (s.Drawn || len(cands) == 0) {
+		if len(s.Externals) > 0 && ((s.Drawn && !s.Externals[0].WhenIdle) || len(cands) == 0) {
 			cands = append(cands, cand{kind: "ext"})
 		}
 		if len(cands) == 0 {
@@ -580,6 +619,9 @@ func (s *Sched) Run() error {
 			e := s.Externals[0]
 			s.Externals = s.Externals[1:]
 			s.x.Logf("  ext: %s", e.Name)
+			if s.HoldExternals > 0 {
+				s.HoldExternals--
+			}
 			if err := e.Fn(); err != nil {
 				return err
 			}
